@@ -271,6 +271,72 @@ func init() {
 	})
 }
 
+func init() {
+	register(&Rule{
+		ID: "C11-d", Template: "T2 never-follows (test-and-set in one critical section)",
+		Doc: "A history walk visits every ancestor once also when a CommitsQueue is shared: in (*CommitsQueue).Insert the membership test on the seen set and the store that marks the commit as seen happen in one critical section — the queue's mutex is not released between them.",
+		Min: 1,
+		Run: func(p *Program, r *RuleResult) error {
+			fn, err := p.SSAFunc("pkg/ref.(*CommitsQueue).Insert")
+			if err != nil {
+				return err
+			}
+			seen, err := p.Field("pkg/ref.CommitsQueue.seen")
+			if err != nil {
+				return err
+			}
+			seenFn, err := p.MustFuncs("pkg/ref.(*CommitsQueue).Seen")
+			if err != nil {
+				return err
+			}
+			r.Analysed = 1
+			var tests, marks, unlocks []ssa.Instruction
+			for _, b := range fn.Blocks {
+				for _, in := range b.Instrs {
+					switch x := in.(type) {
+					case *ssa.Call:
+						if f := calleeFunc(x); f != nil && seenFn[f] {
+							tests = append(tests, x)
+						}
+						if _, u := isLockCall(x); u {
+							unlocks = append(unlocks, x)
+						}
+					case *ssa.Lookup:
+						if derivedFromField(x.X, seen) {
+							tests = append(tests, x)
+						}
+					case *ssa.MapUpdate:
+						if derivedFromField(x.Map, seen) {
+							marks = append(marks, x)
+						}
+					}
+				}
+			}
+			key := funcName(fn) + "|seen-test-and-set"
+			what := "seen-set test and mark are one critical section"
+			if len(tests) == 0 || len(marks) == 0 {
+				r.bad(key, p.Rel(fn.Pos()), what, "Insert does not test and mark the seen set")
+				return nil
+			}
+			for _, t := range tests {
+				for _, u := range unlocks {
+					if _, r1 := reachAfter(fn, t, u, nil, nil); !r1 {
+						continue
+					}
+					for _, m := range marks {
+						if _, r2 := reachAfter(fn, u, m, nil, nil); r2 {
+							r.bad(key, p.Rel(u.Pos()), what, "the mutex is released between the seen-set test and the mark: two walkers sharing the queue can both insert the same commit")
+							return nil
+						}
+					}
+				}
+			}
+			r.ok(key, p.Rel(fn.Pos()), what)
+			return nil
+		},
+	})
+}
+
 func isGlobalNamed(v ssa.Value, pkg, name string) bool {
 	v = stripConv(v)
 	if u, ok := v.(*ssa.UnOp); ok && u.Op == token.MUL {
